@@ -115,7 +115,11 @@ def main():
                      "serves_properties": sorted(CLAIMED),
                      "kind_free_text": "Coq 8.16.1 development (coq/Optyx) with theorems per property; model tied to /repo on every run by a translator for declarative tables and by differential execution of the model (vm_compute inside coqc) against the implementation"}],
         "checks": checks,
-        "notes": "Machine-checked proof in Coq; see DESIGN.md. Fix commits in /repo are listed in known_findings.json as 'fixed' entries.",
+        "notes": ("Machine-checked proof in Coq; see DESIGN.md. Fix commits in /repo are listed in known_findings.json as 'fixed' entries. "
+                  "The tie of every check combines a focused corpus (every reduction kind under every one-node context), sibling views with "
+                  "coinciding names, adversarial variable orders, user-held value kinds (dtypes, memory layouts, cloned variables) and, where "
+                  "the property speaks about state, edit / re-solve histories (DESIGN.md section 4.1); 80 independently written seeded "
+                  "breaking changes (seeded/README.md) are each reported by the check of the property they break."),
         "not_applicable": [{"property_id": p, "reason": NOT_YET} for p in ALL if p not in CLAIMED],
     }
     with open(os.path.join(VERIF, "MANIFEST.json"), "w") as f:
